@@ -374,6 +374,13 @@ def rule_s10(repo):
     from .c13 import stale_id_rule
     return stale_id_rule(repo, 'C14.S10')
 
+def rule_s11(repo):
+    """A method offers a step when the macro's own predicate says it can evaluate the goal; the line it writes is checked
+    by that macro's expansion.  Where the predicate looks at the values of numerals only (C04.M19), the step is offered for
+    goals about other number types and the written line does not check."""
+    from .c04 import numeral_type_rule
+    return numeral_type_rule(repo, 'C14.S11')
+
 
 def rules(repo):
-    return [rule_s1(repo), rule_s2(repo), rule_s3(repo), rule_s4(repo), rule_s5(repo), rule_s6(repo), rule_s7(repo), rule_s8(repo), rule_s9(repo), rule_s10(repo)]
+    return [rule_s1(repo), rule_s2(repo), rule_s3(repo), rule_s4(repo), rule_s5(repo), rule_s6(repo), rule_s7(repo), rule_s8(repo), rule_s9(repo), rule_s10(repo), rule_s11(repo)]
